@@ -113,17 +113,23 @@ def arrivals(ctx, P, iters):
         # initial dates
         cls, fn = view.method("initialise_event_dates_dict")
         n = 0
-        for x in ast.walk(fn):
-            if isinstance(x, ast.Assign) and unparse(x.targets[0]).startswith("self.event_dates_dict["):
+        wi = Walker(P, view, keep=lambda e: e.kind == "assign" and e.d["target"].startswith("self.event_dates_dict["), inline=rules.new_helper, loop_iters=iters)
+        seen_sites = set()
+        for st in wi.paths_of(cls, fn):
+            for e in st.events:
+                if id(e.node) in seen_sites:
+                    continue
+                seen_sites.add(id(e.node))
                 n += 1
-                key = unparse(x.targets[0])[len("self.event_dates_dict"):]
-                v = x.value
+                key = e.d["target"][len("self.event_dates_dict"):].replace(" ", "")
+                v = e.d["value_node"]
                 ob.ok("%s.init:%s" % (view.name, unparse(v)[:30]))
                 if isinstance(v, ast.Call) and call_name(v) == "inter_arrival":
-                    if "[%s][%s]" % tuple(unparse(a) for a in v.args[:2]) != key:
-                        ctx.violation(ob, "R7.arrival-stream", "%s.initialise_event_dates_dict" % cls.name, unparse(x), "sample-for-other-stream", "first arrival date must be sampled for its own (node, class)", loc(x))
+                    args_ = e.d["value"][e.d["value"].index("(") + 1:-1].replace(" ", "").split(",")
+                    if "[%s][%s]" % tuple((args_ + ["?", "?"])[:2]) != key:
+                        ctx.violation(ob, "R7.arrival-stream", "%s.initialise_event_dates_dict" % cls.name, e.text, "sample-for-other-stream", "first arrival date must be sampled for its own (node, class)", e.where)
                 elif unparse(v).lower() not in ("float('inf')", 'float("inf")'):
-                    ctx.violation(ob, "R7.arrival-stream", "%s.initialise_event_dates_dict" % cls.name, unparse(x), "initial-date", "first arrival date must be the first inter-arrival sample (or inf when there is no stream)", loc(x))
+                    ctx.violation(ob, "R7.arrival-stream", "%s.initialise_event_dates_dict" % cls.name, e.text, "initial-date", "first arrival date must be the first inter-arrival sample (or inf when there is no stream)", e.where)
         if n < 2:
             ctx.unrecognised("ARR: initialise_event_dates_dict writes not recognised in %s" % view.name)
 
